@@ -916,8 +916,9 @@ def run_e2e(ctx, state, n_shapes, cap, n_cyclic, corpus_scenarios):
                 items.append((sc, obs["parser"], obs.get("reorder_calls")))
         classify_e2e(ctx, sc, fails, cyclic, state, origin)
 
-    for sc in corpus_scenarios:
-        one(sc["scenario"], bool(sc.get("cyclic")), "corpus")
+    for c in corpus_scenarios:
+        for sc in declaration_orders(c["scenario"], ctx.rng, 48):
+            one(sc, bool(c.get("cyclic")), "corpus")
     shapes = []
     for _ in range(n_shapes):
         base = gen_shape(ctx.rng)
